@@ -663,13 +663,21 @@ def c10_validate_batch(ctx, b, model, base_key, batch):
     return len(seen)
 
 
+def _fixed_instance_generator(env) -> bool:
+    """Generators documented as fixed instances (Toy / Dummy / SimpleSolve / CSV / Ascii): the key-dependence clause
+    of C10 is about *random* generators only, whatever the menu entry is called."""
+    g = getattr(env, "generator", None) or getattr(env, "_generator", None)
+    name = type(g).__name__ if g is not None else ""
+    return any(t in name for t in ("Toy", "Dummy", "SimpleSolve", "CSV", "Ascii"))
+
+
 def c10_run_item(prop, item, seed, tier):
     ctx = Ctx(prop, item)
     env, label = item["env"], item["entry"]
     with ctx.guard(env, {"env": env, "entry": label, "stage": "construct"}):
         b = c10_bundle(env, label)
         model = base.get_model(b)
-        deterministic = label in getattr(model, "DETERMINISTIC_CONFIGS", ())
+        deterministic = label in getattr(model, "DETERMINISTIC_CONFIGS", ()) or _fixed_instance_generator(b.env)
 
         def one(key):
             case = {"env": env, "entry": label, "key": list(key), "batch": item["batch"]}
@@ -710,7 +718,7 @@ def c10_replay(prop, case):
                 ctx.fail("instance", env, sig, msg, case)
         else:
             distinct = c10_validate_batch(ctx, b, model, case["key"], case["batch"])
-            if label not in getattr(model, "DETERMINISTIC_CONFIGS", ()) and distinct < 2:
+            if label not in getattr(model, "DETERMINISTIC_CONFIGS", ()) and not _fixed_instance_generator(b.env) and distinct < 2:
                 ctx.fail("generator.constant", env, "random generator returned the same instance for every key", "", case)
     return list(ctx.failures.values())
 
